@@ -270,6 +270,11 @@ FIXED = [
     # an application that ends the connection from inside on_message; the same session reconnects
     [("send", "c"), ("send", "c"), ("armd", "s"), ("deliver", "c"), ("reconnect",), ("send", "c"), ("send", "s")],
     [("send", "s"), ("armd", "c"), ("deliver", "s"), ("send", "s"), ("reconnect",), ("armd", "c"), ("send", "s")],
+    # a side that has received far more than it has sent (inbound 10000 while outbound is 3): its few outbound messages must
+    # still be retransmitted after a loss, however much inbound history has piled up in the meantime
+    [("counters", 3, 9995)] + [("send", "s")] * 4 + [("deliver", "s")] * 4 + [("send", "c"), ("send", "c")] + [("send", "s")] * 4 + [("deliver", "s")] * 4
+    + [("break", "eof"), ("reconnect",), ("send", "s"), ("send", "c")],
+    [("counters", 9995, 3)] + [("send", "c")] * 6 + [("deliver", "c")] * 6 + [("send", "s"), ("break", "eof"), ("reconnect",), ("send", "c")],
     # counters crossing 9 -> 10 and 99 -> 100 during loss and recovery
     [("counters", 8, 98), ("send", "c"), ("send", "c"), ("send", "c"), ("send", "s"), ("send", "s"), ("deliver", "c"), ("break", "eof"), ("reconnect",), ("send", "c"), ("send", "s"),
      ("deliver", "c"), ("deliver", "s"), ("break", "eof"), ("reconnect",)],
